@@ -88,6 +88,8 @@ pub enum Op {
     CallTwinB(u8),
     CallTwinC(u8),
     CallTwinD(u8),
+    /// more twin shapes (see real.rs): (shape, argument)
+    CallTwinX(u8, u8),
     /// intern_value(Row{owner:255,val}) at top level, stored in a slot
     InternTop(i64),
     /// look up stored reference number (index mod stored refs)
@@ -338,11 +340,12 @@ pub fn generate(seed: u64, scenario: Scenario) -> Case {
             21 => Op::Gc,
             23 => Op::TagSet(rng.below(3) as u8, v),
             24 => Op::TagRemove(rng.below(3) as u8),
-            _ => match rng.below(4) {
+            _ => match rng.below(10) {
                 0 => Op::CallTwinA(rng.below(2) as u8),
                 1 => Op::CallTwinB(rng.below(2) as u8),
                 2 => Op::CallTwinC(rng.below(2) as u8),
-                _ => Op::CallTwinD(rng.below(2) as u8),
+                3 => Op::CallTwinD(rng.below(2) as u8),
+                n => Op::CallTwinX((n - 4) as u8, rng.below(2) as u8),
             },
         };
         ops.push(op);
